@@ -72,5 +72,6 @@ FinWhy(c, fin) ==
      ELSE IF ~fin.dataOk THEN "PayloadPlusPadBytes"
      ELSE IF ~fin.crc32Ok THEN "Crc32Matches"
      ELSE IF \E k \in 1..N : ~fin.blocks[k].crc9ok THEN "Crc9Valid"
+     ELSE IF \E k \in 1..Len(fin.ccs) : fin.ccs[k] # fin.cc THEN "EveryBurstCarriesTheColourCode"     \* quantifier: x colour codes
      ELSE "ok"
 =============================================================================
